@@ -6,6 +6,7 @@
      snapshot position and xslices.Filter(v != 0); internal/session/handle_search.go (ErrNoSuchMessage -> BAD, any
      other error -> NO).
    The model follows the code AFTER the repairs proposed in notes/C15-fix-*.diff:
+     the string keys are decoded with the CHARSET first and lower-cased (Unicode) afterwards;
      SENTBEFORE/SENTON/SENTSINCE treat a missing/unparsable Date as "no match" (was: error -> NO for the mailbox),
      SINCE compares the UTC date like BEFORE/ON, HEADER looks at every field of that name.
    parallel.DoContext is modelled as a sequential pass over the snapshot (each slot is written by exactly one
@@ -50,8 +51,20 @@ Definition build_uidset (cnt : N) (uids : list N) (s : wset) : option (list (N *
 Definition sent_test (f : N -> bool) (m : msgdata) : bool :=
   match m_sent m with Some x => f x | None => false end.
 
-Definition hdr_test (name : string) (s : bytes) (m : msgdata) : bool :=
-  containsb (lower s) (lower (hdr_first (bs name) (m_hdrs m))).
+Section WithCharset.
+(* the decoder of the SEARCH command (handle_search.go: ianaindex encoding of CHARSET, encoding.Nop without one) *)
+Variable cs : charset.
+
+(* a string key is prepared once, when the closure is built: decodedKey := decoder.Bytes(key.Value), then
+   strings.ToLower / bytes.ToLower of the DECODED key.  (Folding before decoding would turn every byte >= 0x80 of a
+   non-UTF-8 key into U+FFFD.)  The closure folds the message text and looks for the prepared key in it. *)
+Definition prep_key (s : bytes) : bytes :=
+  let decoded := decode cs s in
+  ufold decoded.
+
+Definition hdr_test (name : string) (s : bytes) : msgdata -> bool :=
+  let k := prep_key s in
+  fun m => containsb k (ufold (hdr_first (bs name) (m_hdrs m))).
 
 (* all fields named f, in order (Header.GetAll after the repair) *)
 Fixpoint hdr_all (f : bytes) (h : list (bytes * bytes)) : list bytes :=
@@ -83,11 +96,11 @@ Definition compile_leaf (cnt : N) (uids : list N) (l : leaf) : option built :=
   | LFrom s => Some (leaf_hdr (hdr_test "from" s))
   | LSubject s => Some (leaf_hdr (hdr_test "subject" s))
   | LTo s => Some (leaf_hdr (hdr_test "to" s))
-  | LBody s => let k := lower s in Some (leaf_lit (fun m => containsb k (lower (m_body m))))
-  | LText s => let k := lower s in Some (leaf_lit (fun m => containsb k (lower (m_text m))))
+  | LBody s => let k := prep_key s in Some (leaf_lit (fun m => containsb k (ufold (m_body m))))
+  | LText s => let k := prep_key s in Some (leaf_lit (fun m => containsb k (ufold (m_text m))))
   | LHeader f s =>
-      let k := lower s in
-      Some (leaf_hdr (fun m => existsb (fun v => containsb k (lower v)) (hdr_all f (m_hdrs m))))
+      let k := prep_key s in
+      Some (leaf_hdr (fun m => existsb (fun v => containsb k (ufold v)) (hdr_all f (m_hdrs m))))
   | LBefore d => Some (leaf_db (fun m => m_iday m <? d))
   | LOn d => Some (leaf_db (fun m => m_iday m =? d))
   | LSince d => Some (leaf_db (fun m => (m_iday m =? d) || (d <? m_iday m)))
@@ -190,3 +203,5 @@ Definition search (uidmode : bool) (keys : list key) (snap : list msgdata) : sre
       | Some slots => ROk (filter (fun v => negb (v =? 0)) slots)
       end
   end.
+
+End WithCharset.
